@@ -214,7 +214,7 @@ def _collect(shard, seed, n):
 
 
 def main(ctx):
-    col = common.run_shards(_collect, 8 if ctx.quick else 16, ctx.seed, n=50 if ctx.quick else 1500)
+    col = common.run_shards(_collect, 8 if ctx.quick else 16, ctx.seed, n=120 if ctx.quick else 2500)
     for path, rec in common.load_replays(PID):
         col.record(rec["case"], run_case(rec["case"]), nontrivial=True, classes=["replay"])
     ctx.required_classes = ["answer-handled-between-enqueue-and-registration", "non-identity-arrival", "zero-delay-answer", "prefix-with-switch", "preempted-at-source-line", "k=1", "k=4",
